@@ -103,8 +103,22 @@ def dstep (z : Sess) (toks : List String) : Sess × String :=
       | .tooMany z' out => (z', "ok res=toomany " ++ showSess z' out ++ tagStr (t1 ++ ["pub:toomany"] ++ outTags "p" z' out))
       | .panic => (z, "panic" ++ tagStr (t1 ++ t2))
     | none => (z, "bad-op")
-  | ["modify", k, l] =>
-    -- the real ModifySubscription service; the server revises the counts first (default limits)
+  | ["setinterval", i] =>
+    -- ModifySubscription that only changes the publishing interval (the counts are re-applied, both
+    -- counters reset); "interval elapsed" of later ticks refers to the NEW interval
+    match i.toNat?, z.sub with
+    | some _, some s =>
+      match C23.revise { minPub := 0x4059000000000000, minSamp := 0x4059000000000000, defaultKa := 10,
+                         maxKa := 30000, maxLife := 90000, maxQueue := 10 } 0x40f86a0000000000 s.maxKa s.maxLife with
+      | some (_, k', l') =>
+        let z' := { z with sub := some (modifySub s k' l') }
+        (z', "ok " ++ showSess z' [] ++ tagStr ["svc:setinterval", s!"svc:setinterval-st{stateNum s.state}"])
+      | none => (z, "panic")
+    | some _, none => (z, "err nosub" ++ tagStr ["svc:setinterval-nosub"])
+    | none, _ => (z, "bad-op")
+  | ["modify", k, l, _i] =>
+    -- the real ModifySubscription service; the server revises the counts first (default limits);
+    -- the requested interval (>= the minimum) only changes what "interval elapsed" means afterwards
     match k.toNat?, l.toNat?, z.sub with
     | some k, some l, some s =>
       match C23.revise { minPub := 0x4059000000000000, minSamp := 0x4059000000000000, defaultKa := 10,
